@@ -74,7 +74,20 @@ impl Base {
     /// (0 affine, 1 as computed by TwistPoint::g_mul, 2 Z = 2, 3 pseudo-random Z, 4 Z with Montgomery limbs [1,0,0,0], 5 purely imaginary Z)
     fn lib_master(&self, m: &Master) -> Sm9SignMasterKey {
         let mut l = m.lib;
-        l.ppubs = g2_in_rep(&m.ppubs, Some(&m.ks), self.ks_rel >> 4, self.id_seed ^ self.msg_seed);
+        l.ppubs = g2_in_rep(&m.ppubs, Some(&m.ks), (self.ks_rel >> 4) & 7, self.id_seed ^ self.msg_seed);
+        l
+    }
+    /// what a party that only knows the master *public* key holds: the same object with the secret field replaced by a placeholder
+    /// (bit 7 of `ks_rel` set: 0, 1 or a pseudo-random value). Verification may not depend on it.
+    fn lib_verifier(&self, m: &Master) -> Sm9SignMasterKey {
+        let mut l = self.lib_master(m);
+        if self.ks_rel & 0x80 != 0 {
+            l.ks = match self.msg_seed % 3 {
+                0 => [0, 0, 0, 0],
+                1 => [1, 0, 0, 0],
+                _ => to_limbs(&(from_be(&expand_bytes(self.msg_seed ^ 0x9b, 32)) % &r9::params().n)),
+            };
+        }
         l
     }
     fn r(&self) -> BigUint {
@@ -117,7 +130,7 @@ fn check_sign(b: &Base) -> CaseResult {
     ensure!(hv == want.0 && s_ref == want.1, "entry=Sm9SignKey::sign outcome=wrong-signature",
         "ks={:x} |ID|={} |M|={} r={:x}: library h={:x} S={} ; GM/T 0044.2 h={:x} S={}", m.ks, id.len(), msg.len(), r, hv, show1(&s_ref), want.0, show1(&want.1));
     // the library accepts its own signature
-    let v = outcome(|| libm.verify_sign(&id, &msg, &h, &s));
+    let v = outcome(|| b.lib_verifier(&m).verify_sign(&id, &msg, &h, &s));
     ensure!(v.is_ok(), "entry=Sm9SignMasterKey::verify_sign input=own-signature outcome=rejected", "ks={:x} |ID|={} |M|={} h={:x}: {}", m.ks, id.len(), msg.len(), hv, v.describe());
     pass(true, if consumed == 1 { "fixed-r" } else { "fixed-r/library-skipped-a-candidate" })
 }
@@ -129,7 +142,7 @@ fn check_ref_signed(b: &Base) -> CaseResult {
     let Some(t2) = r9::extract_scalar(&m.ks, &id, 0x01) else { return pass(false, "extraction-undefined") };
     let Some((h, s)) = r9::sign_with_r(&r9::p1_mul(&t2), &m.g, &msg, &r) else { return pass(false, "retry-r") };
     let s_lib = lib_g1(&s, &BigUint::one());
-    let v = outcome(|| b.lib_master(&m).verify_sign(&id, &msg, &to_limbs(&h), &s_lib));
+    let v = outcome(|| b.lib_verifier(&m).verify_sign(&id, &msg, &to_limbs(&h), &s_lib));
     ensure!(v.is_ok(), "entry=Sm9SignMasterKey::verify_sign input=conforming-signature outcome=rejected", "ks={:x} |ID|={} |M|={} h={:x}: {}", m.ks, id.len(), msg.len(), h, v.describe());
     pass(true, "reference-signed")
 }
@@ -288,7 +301,7 @@ fn check_tamper(c: &TCase) -> CaseResult {
         Some(s) => r9::verify(&verifier.ppubs, &verifier.g, &id, &msg, &h, s),
     };
     let hl = to_limbs(&(&h % (BigUint::one() << 256)));
-    let vlib = b.lib_master(&verifier);
+    let vlib = b.lib_verifier(&verifier);
     let got = outcome(|| vlib.verify_sign(&id, &msg, &hl, &s_lib));
     let h_class = if h.is_zero() || &h >= n { "h-out-of-range" } else if h == n - 1u32 { "h=N-1" } else { "h-in-range" };
     match (&got, want) {
@@ -314,7 +327,7 @@ fn base_strategy() -> impl Strategy<Value = Base> {
         any::<u64>(),
         gen::scalar256(&n),
     )
-        .prop_map(|(ks, id_len, id_seed, msg_len, msg_seed, r)| Base { ks, ks_rel: ((msg_seed % 6) as u8) << 4, id_len, id_seed, msg_len, msg_seed, r })
+        .prop_map(|(ks, id_len, id_seed, msg_len, msg_seed, r)| Base { ks, ks_rel: ((msg_seed % 6) as u8) << 4 | (((msg_seed >> 8) & 1) as u8) << 7, id_len, id_seed, msg_len, msg_seed, r })
 }
 
 pub fn tamper_strategy() -> impl Strategy<Value = Tamper> {
@@ -343,7 +356,7 @@ fn fixed_bases(seed: u64, count: usize) -> Vec<Base> {
     (0..count)
         .map(|i| {
             let s = seed.wrapping_mul(7477) + i as u64;
-            Base { ks: gen::hex32(&BigUint::from(0xabcdef01u64 + (i as u64 % 3))), ks_rel: ((i % 6) as u8) << 4, id_len: [5usize, 3, 0, 20][i % 4], id_seed: s ^ 1, msg_len: [20usize, 0, 1, 100][i % 4], msg_seed: s ^ 2, r: Hex(expand_bytes(s ^ 3, 32)) }
+            Base { ks: gen::hex32(&BigUint::from(0xabcdef01u64 + (i as u64 % 3))), ks_rel: ((i % 6) as u8) << 4 | ((i / 6 % 2) as u8) << 7, id_len: [5usize, 3, 0, 20][i % 4], id_seed: s ^ 1, msg_len: [20usize, 0, 1, 100][i % 4], msg_seed: s ^ 2, r: Hex(expand_bytes(s ^ 3, 32)) }
         })
         .collect()
 }
@@ -353,7 +366,7 @@ pub fn run(ctx: &Ctx) {
     ctx.set_rule(
         "signing cases are (ks, representation of the master public key object: affine / as computed by g_mul / Z = 2 / random Z / Z with Montgomery limbs [1,0,0,0] / imaginary Z, identity, message, r): ks from a small pool (so that the reference pairing g = e(P1,Ppub-s) is cached) and the edge-biased generator, identities of 0..64 bytes, messages of 0..1024 bytes, r injected through the RNG hook; \
          tampering cases are (reference-made signature, tampering): every bit flip of h (256) and of the 64 bytes of S (512) for some bases, h in {0, 1, N-2, N-1, N, N+1, 2^256-1, h+-1}, S in {-S, S+P1, [2]S, another identity's S, off-curve, (0,0), infinity, \
-         the same S with another Z (not an alteration)}, multi-byte alterations of h that preserve the xor, the sum or the multiset of its bytes or words, another message / identity / master public key. Oracles: exact (h, S) equality with the reference signer for the same r; h in [1,N-1], S on the curve; the library accepts its own and the reference's signatures; \
+         the same S with another Z (not an alteration)}; half of the verifications are done by an object whose secret field ks is a placeholder (a verifier knows only Ppub-s), multi-byte alterations of h that preserve the xor, the sum or the multiset of its bytes or words, another message / identity / master public key. Oracles: exact (h, S) equality with the reference signer for the same r; h in [1,N-1], S on the curve; the library accepts its own and the reference's signatures; \
          for tamperings the reference verifier decides and a panic is a violation. Non-trivial: fixed-r comparison done, or a rejected tampering.",
     );
     ctx.assume("reference signer/verifier (harness/src/refimpl/sm9.rs) reproduce the GM/T 0044.5 Annex A (h, S)");
@@ -378,7 +391,7 @@ pub fn run(ctx: &Ctx) {
     let seed0 = ctx.seed;
     let maxlen = ctx.tier.pick(200usize, 1024usize);
     ctx.exhaustive("message_lengths", "every message length 0..=200 (thorough 0..=1024) with r injected: exact (h, S) and library verification", move || {
-        (0..=maxlen).map(|l| Base { ks: gen::hex32(&BigUint::from(0xabcdef01u64)), ks_rel: ((l % 6) as u8) << 4, id_len: 1 + l % 9, id_seed: seed0 ^ l as u64, msg_len: l, msg_seed: seed0.wrapping_mul(31) ^ l as u64, r: Hex(expand_bytes(seed0 ^ 0x7777 ^ l as u64, 32)) }).collect()
+        (0..=maxlen).map(|l| Base { ks: gen::hex32(&BigUint::from(0xabcdef01u64)), ks_rel: ((l % 6) as u8) << 4 | ((l / 6 % 2) as u8) << 7, id_len: 1 + l % 9, id_seed: seed0 ^ l as u64, msg_len: l, msg_seed: seed0.wrapping_mul(31) ^ l as u64, r: Hex(expand_bytes(seed0 ^ 0x7777 ^ l as u64, 32)) }).collect()
     }, check_sign);
 
     let nrel = ctx.tier.pick(8u64, 60u64);
